@@ -139,7 +139,7 @@ def st_opt_map(ex, callee, args, st):
                     res.append(("return", Adt("Option", "Some", [o.value]), None, o.state))
                 else:
                     res.append((o.kind, o.value, o.info, o.state))
-        elif "Box::<" in callee and callee.rstrip("}").endswith("::new"):
+        elif re.search(r"\{(std::boxed::|alloc::boxed::)?Box::<.*>::new\}>$", callee):
             res.append(("return", Adt("Option", "Some", [payload]), None, st2))
         else:
             raise Unsupported(f"Option::map with {callee}")
@@ -235,6 +235,12 @@ def slice_opaque(ex, callee, args, st):
     t = (ex.dest_type or "").strip()
     ex.sym_counter += 1
     nm = f"ev{ex.sym_counter}"
+    budget = getattr(ex, "event_budget", None)
+    if budget is not None and t == "bool" and len(st.events) >= budget:
+        # bounded exploration of token loops: beyond the budget no further token matches (recorded as a truncation)
+        ex.truncated = getattr(ex, "truncated", set()) | {"event budget"}
+        st2.events.append((short(callee), tuple(show(a, ex, st) for a in args), "false"))
+        return [("return", S("bool", "false"), None, st2)]
     st2.events.append((short(callee), tuple(show(a, ex, st) for a in args), nm))
     if t == "bool":
         v = ex.enc.bool_var(nm)
